@@ -46,6 +46,8 @@ def parseMOp (s : String) : Option MOp :=
   | ["stop"] => some .stop
   | ["sd"] => some .shutdown
   | ["x"] => some .destroy
+  | ["c", n] => n.toNat?.map .spawnCtl
+  | ["rs"] => some .restart
   | _ => none
 
 def lifeCode : Life → Nat
@@ -79,8 +81,8 @@ def pending : Thread → Char × Char
     | .unlockExit | .unlockCont | .unlockTask _ => ('U', 'm')
     | .popped _ | .bYield _ _ => ('Y', '-')
     | .body _ c => pendingCall c
-    | .cfgLock _ => ('L', 'c')
-    | .cfgUnlock _ => ('U', 'c')
+    | .cfgLock _ _ => ('L', 'c')
+    | .cfgUnlock _ _ => ('U', 'c')
     | .done => ('-', '-')
   | .sub s =>
     match s with
@@ -89,18 +91,18 @@ def pending : Thread → Char × Char
     | .done => ('-', '-')
   | .main pc _ =>
     match pc with
-    | .start => ('S', '-')
+    | .start | .startAux => ('S', '-')
     | .mYield => ('Y', '-')
     | .inCall c => pendingCall c
-    | .cL | .dInfL | .pollL _ | .finL _ | .sFlagL | .sChkL | .jL | .p5L => ('L', 'm')
+    | .cL | .dInfL | .pollL _ | .finL _ | .sFlagL | .sChkL | .jL | .p5L | .rsL | .stL | .kL => ('L', 'm')
     | .p4CfgL => ('L', 'c')
-    | .cC | .mSpawn _ => ('C', '-')
-    | .cU | .dInfU | .pollU _ | .finU _ | .sFlagUA | .sFlagU | .sChkU | .jU _ | .jUnone | .p5U => ('U', 'm')
+    | .cC | .mSpawn _ | .mSpawnCtl _ | .kC => ('C', '-')
+    | .cU | .dInfU | .pollU _ | .finU _ | .sFlagUA | .sFlagU | .sChkU | .jU _ | .jUnone | .p5U | .rsU | .stU | .kU => ('U', 'm')
     | .p4CfgU => ('U', 'c')
     | .sBcast => ('B', 'v')
     | .jDetach _ => ('D', '-')
     | .mJoin | .jJoin _ => ('J', '-')
-    | .pollZ _ | .sGrace | .p2Z | .p2Grace => ('Z', '-')
+    | .pollZ _ | .sGrace | .p2Z | .p2Grace | .sDoneZ => ('Z', '-')
     | .done => ('-', '-')
 
 /-- the harness tag expected at a yield -/
@@ -163,7 +165,7 @@ def results (s0 : St) : String :=
     let o := match s.outcome i with | none => "n" | some true => "x" | some false => "v"
     s!"{i}:{r}:{s.startCnt i}:{s.doneCnt i}:{o}:{s.handled i}"
   let l := (List.range s.nextId).map one
-  s!"end quiesced={bit s.quiesced} mlog={",".intercalate (s.mlog.reverse.map toString)} " ++
+  s!"end quiesced={bit s.quiesced} mlog={",".intercalate ((s.mlog.mergeSort (· ≤ ·)).map toString)} " ++
   (if l.isEmpty then "-" else " ".intercalate l)
 
 def doEvent (d : DSt) (t : Nat) (kind : Char) (obj : Char) (detail : Int) (alt : Nat) (tag : String) (n : Nat) : DSt × String :=
@@ -196,15 +198,24 @@ def parseInt (s : String) : Option Int :=
   if s.startsWith "-" then (s.drop 1).toNat?.map (fun n => - Int.ofNat n) else s.toNat?.map Int.ofNat
 
 def step (d : DSt) : List String → DSt × String
-  | ["reset", i, m, q, det, hook] =>
-    match i.toNat?, m.toNat?, q.toNat?, parseBit det, parseBit hook with
-    | some i, some m, some q, some det, some hook =>
-      ({ cfg := { initialSize := i, maxSize := m, maxQueue := q, detached := det, hook := hook, bodies := [], main := [] } }, "ok")
+  | ["reset", i, m, q, mode, hook] =>
+    -- mode: 0 IMMEDIATE, 1 GRACEFUL (same code path as IMMEDIATE), 2 DETACHED
+    match i.toNat?, m.toNat?, q.toNat?, mode.toNat?, parseBit hook with
+    | some i, some m, some q, some mode, some hook =>
+      if mode > 2 then (d, "bad-op") else
+      ({ cfg := { initialSize := i, maxSize := m, maxQueue := q, detached := mode == 2, hook := hook, bodies := [], main := [], allowRestart := true } }, "ok")
     | _, _, _, _, _ => (d, "bad-op")
   | ["body", thr, acts] =>
-    match parseBit thr, parseActs acts with
-    | some thr, some acts => ({ d with cfg := { d.cfg with bodies := d.cfg.bodies ++ [{ acts := acts, throws := thr }] } }, "ok")
+    -- thr: 0 returns, 1 throws, 2 throws and the error handler throws at its first invocation
+    match thr.toNat?, parseActs acts with
+    | some thr, some acts =>
+      if thr > 2 then (d, "bad-op") else
+      ({ d with cfg := { d.cfg with bodies := d.cfg.bodies ++ [{ acts := acts, throws := thr != 0, hthrow := thr == 2 }] } }, "ok")
     | _, _ => (d, "bad-op")
+  | "ctl" :: ops =>
+    match ops.mapM parseMOp with
+    | some ops => ({ d with cfg := { d.cfg with ctls := d.cfg.ctls ++ [ops] } }, "ok")
+    | none => (d, "bad-op")
   | "main" :: ops =>
     match ops.mapM parseMOp with
     | some ops =>
@@ -214,8 +225,9 @@ def step (d : DSt) : List String → DSt × String
       let okM : MOp → Bool
         | .act a => okAct a
         | .spawnSub sc => sc.all okAct
+        | .spawnCtl ix => ix < cfg.ctls.length
         | _ => true
-      if ops.all okM && cfg.bodies.all (fun b => b.acts.all okAct) then
+      if ops.all okM && cfg.ctls.all (fun l => l.all okM) && cfg.bodies.all (fun b => b.acts.all okAct) then
         ({ cfg := cfg, st := init cfg, live := true }, "ok")
       else (d, "bad-case")
     | none => (d, "bad-op")
